@@ -231,6 +231,36 @@ func (w *vWorld) commitModel() {
 	w.clearPending()
 }
 
+// mergeReorder reports the KF-merge-reorder region for the running transaction: a string merge
+// whose result has another length than its delta, followed by a later store to column a of the
+// same row in the same transaction (SwapBytes then appends the merged Put AFTER that store).
+func (w *vWorld) mergeReorder() bool {
+	if w.kind != vStringCat {
+		return false
+	}
+	cur := w.a
+	hit := false
+	for i := 0; i < w.pn; i++ {
+		s := w.pRow[i]
+		switch w.pOp[i] {
+		case 0, 4:
+			cur[s] = vModelSet(w.kind, w.pNum[i], w.pStr[i])
+		case 3, 5:
+			cur[s] = vCell{}
+		case 1:
+			if cur[s].has && len(cur[s].str) > 0 {
+				for j := i + 1; j < w.pn; j++ {
+					if w.pRow[j] == s && (w.pOp[j] == 0 || w.pOp[j] == 1) {
+						hit = true
+					}
+				}
+			}
+			cur[s] = vModelMerge(w.kind, cur[s], w.pNum[i], w.pStr[i])
+		}
+	}
+	return hit
+}
+
 func (w *vWorld) clearPending() {
 	w.pn = 0
 	for i := range w.gone {
